@@ -150,6 +150,12 @@ pub fn gen_pcm(kind: &str, rng: &mut Rng, channels: usize, bps: u32, frames: usi
                     let mut r2 = Rng::new(0x9E37 + (i % p) as u64 * 7919 + c as u64 * 104729 + p as u64);
                     r2.range(lo / 3, hi / 3)
                 }
+                // full-scale alternation in bursts of 6..9 samples between quiet stretches, shifted left by 0..3 wasted bits per channel
+                "railburst" => {
+                    let w = (c as u32 + (frames as u32 % 4)) % 4;
+                    let v = if (i / 9) % 2 == 0 { if i % 2 == 0 { hi } else { lo } } else { rng.range(-2.max(lo), 2.min(hi)) };
+                    (v >> w) << w
+                }
                 "noise" => rng.range(lo, hi),
                 // a quiet high-pitched tone with a little noise: linear prediction does far better than the fixed predictors
                 "hitone" => {
